@@ -117,7 +117,7 @@ status_t StringMatcher :: SetPattern(const String & s, bool isSimple)
 
          if (_ranges.IsEmpty())
          {
-            if ((str[0] == '\\')&&(str[1] == '<')) str++;  // special case escape of initial < for "\<15-23>"
+            if ((str[0] == '\\')&&((str[1] == '<')||(str[1] == '`'))) str++;  // special case escape of initial < for "\<15-23>" (and of an initial backtick)
 
             regexPattern = "^(";
 
@@ -247,7 +247,7 @@ bool IsRegexToken(char c, bool isFirstCharInString)
       case '=': case '^': case '+': case '$': case '{':  case '}': // note:  deliberately not including ':' or '-'
         return true;
 
-      case '<': case '~':   // these chars are only special if they are the first character in the string
+      case '<': case '~': case '`':   // these chars are only special if they are the first character in the string
          return isFirstCharInString;
 
       default:
